@@ -479,6 +479,12 @@ class RestAPI(object):
                     )
                     return aws_error("StateMachineDoesNotExist"), 400
 
+                """
+                Work on a copy, so that an update that is refused further down
+                leaves the stored State Machine exactly as it was.
+                """
+                state_machine = dict(state_machine)
+
                 role_arn = params.get("roleArn")
                 if role_arn:
                     if not valid_role_arn(role_arn):
